@@ -162,6 +162,9 @@ func (e *Engine) loadOnce() error {
 			if fn == nil {
 				continue // reported per unit as target-missing
 			}
+			if prev := e.byTarget[fn]; prev != nil {
+				return fmt.Errorf("two contracts for %s: %s:%d and %s:%d (callers would see only one of them)", fn, prev.File, prev.Line, c.File, c.Line)
+			}
 			e.byTarget[fn] = c
 			e.targetOf[c] = fn
 		}
@@ -575,7 +578,7 @@ type Unit struct {
 }
 
 func (e *Engine) newCtx(name string, ct *Contract) *Ctx {
-	c := &Ctx{eng: e, unitName: name, contract: ct, nameCount: map[string]int{}, opaque: map[string]int{}, budget: 4000,
+	c := &Ctx{eng: e, unitName: name, contract: ct, nameCount: map[string]int{}, opaque: map[string]int{}, budget: 60000,
 		cellSort: map[int]*Sort{}, globalsWritten: map[string]bool{}, ghosts: map[string]Val{}, wfDone: map[*Term]bool{}, aliveDone: map[[2]*Term]bool{}, sliceTerms: map[*Term]bool{}}
 	floatMode = 0
 	if ct != nil {
@@ -727,7 +730,12 @@ func (e *Engine) verifyUnit(ct *Contract) (u *Unit) {
 	// vacuity canary: the end of the contract function must be reachable under all assumptions
 	if ct.Flags["nocanary"] == "" {
 		name := c.unitName + "#canary"
-		c.obligs = append(c.obligs, &Oblig{Name: name, Kind: "canary", Func: c.unitName, Goal: Not(ret), NAssume: len(c.assumes)})
+		goal := Not(ret)
+		if mk != nil && mk.retReach != nil {
+			// the function under proof must be able to return (through its loop exits) under all assumptions made
+			goal = Not(And(ret, mk.retReach))
+		}
+		c.obligs = append(c.obligs, &Oblig{Name: name, Kind: "canary", Func: c.unitName, Goal: goal, NAssume: len(c.assumes)})
 	}
 	return u
 }
